@@ -38,10 +38,9 @@ def judge(run, cases, rows):
                         "C16: at step %d of case %d the outputs of the real Configuration differ between the history and the same history with every foreign-class event replaced by a deletion (mask %d)"
                         % (r[D1], c["id"], r[M1]), theorem="Arb.Cases.c16_run")
         elif r[D2] != 0:
-            what = {1: "a change other than an error-free delete", 2: "a delete change that carries warnings (the controller then writes a Rejected event/status on an object it does not own)",
-                    3: "a problem about the object"}[r[C2]]
+            what = {1: "a change other than an error-free delete", 3: "a problem about the object"}[r[C2]]
             ev = c["histories"][0]["events"][r[D2] - 1]
-            run.failing({"kind": "not-silent", "how": {1: "non-delete", 2: "delete-with-warnings", 3: "problem"}[r[C2]]}, [c],
+            run.failing({"kind": "not-silent", "how": {1: "non-delete", 3: "problem"}[r[C2]]}, [c],
                         "C16: step %d of case %d moves %s %s/%s to a foreign class and is answered with %s" % (r[D2], c["id"], ev["spec"]["kind"], ev["spec"]["ns"], ev["spec"]["name"], what),
                         theorem="Arb.Cases.silent_for")
         elif r[MASK] != 0:
@@ -50,12 +49,37 @@ def judge(run, cases, rows):
                         theorem="correspondence Arb.Model ~ internal/k8s/configuration.go", found_input=False)
 
 
+CID, DX, DS, DC, DF, CNEV = range(6)
+
+
+def judge_ctl(run, cases, rows):
+    """controller level: no Event and no status write of the real LoadBalancerController.sync names an object that is of a foreign class"""
+    for c in cases:
+        if c.get("error") or c["id"] not in rows:
+            continue
+        r = rows[c["id"]]
+        run.cov["traces_validated_against_impl"] += 1
+        run.cov["controller_events"] = run.cov.get("controller_events", 0) + sum(len(st["events"]) for st in c["ctl"])
+        run.cov["controller_status_writes"] = run.cov.get("controller_status_writes", 0) + sum(len(st["writes"]) for st in c["ctl"])
+        if r[DF] != 0:
+            st = c["ctl"][r[DF] - 1]
+            ev = c["histories"][0]["events"][r[DF] - 1]
+            run.failing({"kind": "not-silent", "how": "event-or-status-on-foreign-object"}, [c],
+                        "C16: at step %d of case %d (%s %s/%s) the real LoadBalancerController.sync recorded an Event or a status write on an object whose class designates another controller: events %s writes %s"
+                        % (r[DF], c["id"], ev["spec"]["kind"], ev["spec"]["ns"], ev["spec"]["name"], json.dumps(st["events"])[:400], json.dumps(st["writes"])[:200]),
+                        theorem="Arb.Cases.ctl_run (foreign_in_cluster)")
+
+
 def check(run):
     n = 250 if run.tier == "quick" else 5000
     run.proof_obligations()
-    cases = arb.generate(run, n)
+    cases = arb.generate(run, n, ctl=True)
     rows = evaluate(run, cases)
     judge(run, cases, rows)
+    part = cases[: (150 if run.tier == "quick" else 2500)]
+    crow = arb.evaluate(run, part, fn="ctl_case", extra=arb.ctl_term, tag="arbctl")
+    judge_ctl(run, part, crow)
+    run.cov["controller_level_histories"] = len(part)
     for c in cases[:2]:
         run.sample(arb.summarize_case(c))
     run.cov["foreign_class_events"] = sum(rows[c["id"]][NFOREIGN] for c in cases if not c.get("error"))
@@ -64,13 +88,20 @@ def check(run):
                        "foreign-class upsert replaced by a delete of that key; changes, problems, hosts, listener hosts and GetResources() are compared after every step; "
                        "non-trivial = the history contains at least one foreign-class event")
     run.cov["trusted_base"] = arb.TRUSTED
-    run.assumptions += ["events and status writes are a function of the returned changes and problems (the controller's processChanges/processProblems are not run by this check)",
+    run.cov["rule"] += ("; controller level: the same histories are fed through the real LoadBalancerController.sync (production constructor, fake clientsets, harness-filled informer stores) and "
+                        "every recorded Event and status write is checked not to name an object that is of a foreign class at that moment")
+    run.assumptions += [
                         "Policies are not arbitrated by Configuration; their class filter (getPolicies) is covered by C08"]
 
 
 def replay(run, path):
-    cases = arb.replay_cases(run, path)
+    cases = arb.replay_cases(run, path, ctl=True)
     rows = evaluate(run, cases)
+    crow = arb.evaluate(run, cases, fn="ctl_case", extra=arb.ctl_term, tag="arbctl")
+    for c in cases:
+        if not c.get("error") and c["id"] in crow:
+            print("replay case %d (controller level): first step at which a foreign-class object received an Event or status write = %d" % (c["id"], crow[c["id"]][DF]))
+    judge_ctl(run, cases, crow)
     for c in cases:
         if not c.get("error"):
             r = rows[c["id"]]
